@@ -57,6 +57,7 @@ def prerequisite_collection(ctx, o, ps: PassShape):
     srcs = ps.collection_sources(it, cn)
     pt['sources'] = srcs
     pt['iter'] = it
+    pt['has_bound'] = any(isinstance(a, ast.Name) and a.id == ps.bound for a in pt['args'])
     if srcs['unknown']:
         o.undecided(ps.f, pt['stmt'], srcs['unknown'][0], "dependency collection built in an idiom the rule does not recognise")
         return pt
@@ -636,6 +637,27 @@ def search_monotone(ctx, o, S):
             r = sched.sign_test(ex.expand(t, at) if at is not None else t, p)
         return r
 
+    def _step_can_be_skipped(step_node):
+        """the search loop can go round (come back to its header) without executing the step: the day would be examined twice /
+        the search would stall.  An iteration that ends in return / raise does not come back, so a step placed after
+        `if <day is free>: ... return` is unconditional in this sense whatever the free-day test looks like"""
+        hdrs = [fcfg.node_of(l_) for l_ in walk_no_nested(f.node) if isinstance(l_, (ast.For, ast.While)) and
+                any(y is step_node.ast for st_ in l_.body for y in ast.walk(st_))]
+        hdrs = [h_ for h_ in hdrs if h_ is not None]
+        if not hdrs:
+            return True          # a step outside the loop is not the loop's step
+        hdr = hdrs[-1]
+        seen, todo = set(), [s_ for s_ in hdr.succ]
+        while todo:
+            n_ = todo.pop()
+            if n_.id == hdr.id:
+                return True
+            if n_.id in seen or n_.id == step_node.id or not fcfg.dominates(hdr, n_):
+                continue
+            seen.add(n_.id)
+            todo.extend(n_.succ)
+        return False
+
     defs = fl.defs_of(dvar)
     inits = [x for x in defs if x.kind == 'assign' and not (x.node is not None and any(
         isinstance(r, ast.Return) for r in [x.node.ast]))]
@@ -647,6 +669,10 @@ def search_monotone(ctx, o, S):
             # d = midnight(d) +/- fraction directly before return is the result expression, not a search step
             if isinstance(v, ast.BinOp) and facts.is_midnight_of(v.left) is not None:
                 continue
+            # d = midnight(d): the same day (the result is midnight(d) + fraction anyway)
+            md = facts.is_midnight_of(v)
+            if md is not None and isinstance(md, ast.Name) and md.id == dvar:
+                continue
             # d = d + timedelta(days=k): a step written as a plain assignment
             if isinstance(v, ast.BinOp) and isinstance(v.op, (ast.Add, ast.Sub)) and isinstance(v.left, ast.Name) and v.left.id == dvar \
                     and facts.day_delta(v.right) is not None:
@@ -656,8 +682,7 @@ def search_monotone(ctx, o, S):
                     ok = False
                 else:
                     n_step += 1
-                    cs = cfg_of(f).conditions(x.node)
-                    if cs and not all(_sign_x(t, p) for t, p in cs):
+                    if _step_can_be_skipped(x.node):
                         o.refute(f, x.stmt, x.stmt, "the day step is conditional")
                         ok = False
                 continue
@@ -693,12 +718,9 @@ def search_monotone(ctx, o, S):
                 ok = False
             else:
                 n_step += 1
-                if [c for c in cfg_of(f).conditions(x.node)]:
-                    cs = cfg_of(f).conditions(x.node)
-                    # allowed: being after a `return` inside `if free > 0`
-                    if not all(_sign_x(t, p) for t, p in cs):
-                        o.refute(f, x.stmt, x.stmt, "the day step is conditional")
-                        ok = False
+                if _step_can_be_skipped(x.node):
+                    o.refute(f, x.stmt, x.stmt, "the day step is conditional")
+                    ok = False
         else:
             o.undecided(f, x.stmt if x.stmt is not None else f.node, dvar, f"unexpected definition of the search day `{dvar}`")
             ok = False
